@@ -193,6 +193,51 @@ def run(ck, fb, fbd):
         else:
             ck.violate("G.enable", f.where, "%s(false) does not clear %s under exactly !_enable" % (f.name, cache), "G.enable:%s:clear" % f.pq)
 
+    # ---------------- stale-flag window: between compute_k() and the flag write nothing may consult flag k
+    ck.rule("G.stale", "inside enable_k, no function called between compute_k() and the write of the flag may (transitively) read that flag: it would still see the kind as disabled")
+    memo = {}
+
+    def reads_flags(fid, stack=()):
+        if fid in memo:
+            return memo[fid]
+        f = fb.fns.get(fid)
+        if f is None or not f.has_cfg or fid in stack:
+            return {}
+        res = {}
+        for b, i, n in f.nodes(("mem",)):
+            if n.get("o") == TK and n.get("f") in cm.kind_of_flag and b in f.reach():
+                res.setdefault(n["f"], ["%s reads %s" % (f.loc(n if n.get("ln") else f.line), n["f"])])
+        for b, i, n, tgt in fb.callees(f):
+            if tgt is None or b not in f.reach():
+                continue
+            sub = reads_flags(tgt.id, stack + (fid,))
+            for fl, ch in sub.items():
+                res.setdefault(fl, ["%s: %s calls %s" % (f.loc(n), f.pq.split("::")[-1], tgt.pq.split("::")[-1])] + ch)
+        if not stack:
+            memo[fid] = res
+        return res
+
+    for cache, k in cm.kinds.items():
+        f = fb.fns[k["enable"]]
+        comp_pos = [(b, i) for b, i, n in f.nodes(("call",)) if n.get("u") == k["compute"]]
+        asg = [(b, i) for b, i, n in f.tops() if n.get("k") == "asg" and unwrap(n["l"]).get("f") == k["flag"]]
+        n_window = 0
+        for b, i, n, tgt in fb.callees(f):
+            if tgt is None or n.get("u") == k["compute"] or b not in f.reach():
+                continue
+            if not any(f.dominates(cp, (b, i)) for cp in comp_pos):
+                continue
+            if any(f.dominates(ap, (b, i)) for ap in asg):
+                continue
+            n_window += 1
+            rf = reads_flags(tgt.id)
+            if k["flag"] in rf:
+                ck.violate("G.stale", f.loc(n), "%s calls %s after %s() but before %s is set; the callee consults %s" % (f.name, tgt.pq.split("::")[-1], fb.fns[k["compute"]].name, k["flag"], k["flag"]),
+                           "G.stale:%s:%s" % (f.pq, tgt.pq), detail={"chain": rf[k["flag"]]})
+            else:
+                ck.ok("G.stale", f.loc(n), "%s: call of %s inside the stale window of %s does not read that flag" % (f.name, tgt.pq.split("::")[-1], k["flag"]))
+        ck.count("stale_window_calls", n_window)
+
     ck.analysed.update({"functions_scanned": len(fns), "element_access_sites": n_sites, "sites_discharged_locally": n_guarded, "call_sites_checked": n_call_checks,
                         "functions_with_contract": len(contracts), "per_cache_sites": dict(per_cache)})
     ck.floor("caches", len(cm.kinds), 3)
